@@ -38,12 +38,12 @@ def _int_consts(t, limit=8):
     return out
 
 
-def manual_instances(hyps, goal, sks):
+def manual_instances(hyps, goal, sks, extra_cands=()):
     """instances of universally quantified hypotheses at the goal's skolem constants and free integer constants.
     Needed because bound variables that occur only under a lambda (row sums, traces) give the solver no
     E-matching pattern; every instance is a logical consequence of its hypothesis, so this is sound."""
     cands = list(sks) + [c for c in _int_consts(goal) if not any(c.eq(s_) for s_ in sks)]
-    cands = [c for c in cands if c.sort() == z3.IntSort()][:8]
+    cands = [c for c in cands if c.sort() == z3.IntSort()][:8] + list(extra_cands)[:4]
     out = []
     if not cands:
         return out
@@ -320,6 +320,76 @@ def sum_ext_instances(terms, depth=2, limit=60):
     return out
 
 
+def _hard_check(assertions, tmo_ms, seed=0, leaves=None, grace_s=2.0):
+    """z3 check in a forked child with a hard wall-clock limit (z3's own `timeout` is not honoured inside some
+    non-linear / preprocessing phases: the same query then runs for a minute instead of a second).  Returns
+    (verdict, model, reason) with verdict in unsat / sat / unknown; the model is extracted in the child."""
+    import pickle, select, signal
+    rfd, wfd = os.pipe()
+    pid = os.fork()
+    if pid == 0:
+        code = 0
+        try:
+            os.close(rfd)
+            sx = z3.Solver()
+            sx.set("timeout", int(tmo_ms))
+            sx.set("random_seed", int(seed))
+            for a_ in assertions:
+                sx.add(a_)
+            res = sx.check()
+            if res == z3.sat:
+                payload = ("sat", extract_model(sx.model(), leaves) if leaves is not None else None, "")
+            elif res == z3.unsat:
+                payload = ("unsat", None, "")
+            else:
+                payload = ("unknown", None, sx.reason_unknown())
+            data = pickle.dumps(payload)
+            off = 0
+            while off < len(data):
+                off += os.write(wfd, data[off:off + 65536])
+        except BaseException as e:      # noqa
+            try:
+                os.write(wfd, pickle.dumps(("unknown", None, "child error: %s" % e)))
+            except Exception:           # noqa
+                pass
+            code = 1
+        finally:
+            os._exit(code)
+    os.close(wfd)
+    deadline = time.time() + tmo_ms / 1000.0 + grace_s
+    chunks = []
+    timed_out = False
+    while True:
+        left = deadline - time.time()
+        if left <= 0:
+            timed_out = True
+            break
+        rl, _, _ = select.select([rfd], [], [], left)
+        if not rl:
+            timed_out = True
+            break
+        b = os.read(rfd, 1 << 16)
+        if not b:
+            break
+        chunks.append(b)
+    os.close(rfd)
+    if timed_out:
+        try:
+            os.kill(pid, signal.SIGKILL)
+        except OSError:
+            pass
+    try:
+        os.waitpid(pid, 0)
+    except OSError:
+        pass
+    if timed_out:
+        return "unknown", None, "hard timeout (%d ms)" % tmo_ms
+    try:
+        return pickle.loads(b"".join(chunks))
+    except Exception as e:      # noqa
+        return "unknown", None, "no answer from the solver process: %s" % e
+
+
 def _solve(idx):
     ob, extra_axioms, leaves = _OBS[idx]
     t0 = time.time()
@@ -337,31 +407,57 @@ def _solve(idx):
         for a in sum_succ_instances([goal]):
             s.add(a)
     insts = manual_instances(ob.hyps, goal, sks)
+    more_insts = []
     if sum_axioms and _mentions_decl([goal], "u_sum"):
-        for a in sum_ext_instances([goal] + list(insts)):
+        ext = sum_ext_instances([goal] + list(insts))
+        for a in ext:
             s.add(a)
+        # cell-wise hypotheses are also needed at the fresh indices introduced by the extensionality instances
+        ext_sk = []
+        for a in ext:
+            for c in _int_consts(a, limit=40):
+                if c.decl().name().startswith("ext") and not any(c.eq(x) for x in ext_sk):
+                    ext_sk.append(c)
+        if ext_sk:
+            more_insts = manual_instances(ob.hyps, goal, sks, extra_cands=ext_sk)
     # stage 0: quantifier-free hypotheses and ground instances only (fewer hypotheses: a proof here is a proof);
     # quantified hypotheses that are irrelevant to the goal otherwise make the solver diverge on non-linear goals
     if not _has_quantifier(goal):
-        s0 = z3.Solver()
-        s0.set("timeout", 1200)
-        for h in list(ob.hyps) + list(plain_axioms) + list(insts):
-            if not _has_quantifier(h):
-                s0.add(h)
-        s0.add(z3.Not(goal))
-        if s0.check() == z3.unsat:
+        a0 = [h for h in list(ob.hyps) + list(plain_axioms) + list(insts) if not _has_quantifier(h)]
+        a0.append(z3.Not(goal))
+        if _hard_check(a0, 1200, grace_s=0.8)[0] == "unsat":
             return idx, "proved", None, time.time() - t0, "z3", None
     for inst in insts:
         s.add(inst)
     s.add(z3.Not(goal))
-    r = s.check()
+    # portfolio with restarts: the sum/extensionality queries have heavy-tailed running times (the same obligation takes
+    # 2 s or 60 s depending on the fresh names), so several short attempts with different seeds and with / without the
+    # additional ground instances are far more stable than a single long one.  Every added instance is a consequence of
+    # a hypothesis, so `unsat` of any attempt is a proof and `sat` of any attempt is a counter-model of the obligation.
+    base = list(s.assertions())
+    budget = Z3_TIMEOUT_MS
+    attempts = [(True, budget // 6, 0), (False, budget // 6, 0), (True, budget // 3, 7), (False, budget // 3, 7),
+                (True, budget, 13), (False, budget, 13)]
+    if not more_insts:
+        attempts = [(False, budget // 6, 0), (False, budget // 3, 7), (False, budget, 13)]
+    verdict, model, reason = "unknown", None, ""
+    for with_more, tmo, seed in attempts:
+        verdict, model, why = _hard_check(base + (list(more_insts) if with_more else []), tmo, seed, leaves)
+        if verdict != "unknown":
+            break
+        reason = why
+        if os.environ.get("QVC_DUMP_SLOW"):
+            sx = z3.Solver()
+            for a_ in base + (list(more_insts) if with_more else []):
+                sx.add(a_)
+            with open(os.path.join(os.environ["QVC_DUMP_SLOW"], "slow_%d_%d_%s.smt2" % (os.getpid(), tmo, with_more)), "w") as f_:
+                f_.write(sx.to_smt2())
     dt = time.time() - t0
-    if r == z3.unsat:
+    if verdict == "unsat":
         return idx, "proved", None, dt, "z3", None
-    if r == z3.sat:
-        m = s.model()
-        return idx, "refuted", extract_model(m, leaves), dt, "z3", None
-    reason = s.reason_unknown()
+    if verdict == "sat":
+        return idx, "refuted", model, dt, "z3", None
+    insts = list(insts) + list(more_insts)
     # second opinion
     smt2 = s.to_smt2()
     v2 = cvc5_check(smt2)
@@ -451,13 +547,13 @@ def extract_model(m, leaves):
         if isinstance(leaf, SymArr):
             shp = shape_vals(leaf.shape)
             if shp is None or any(n > 6 or n < 0 for n in shp) or len(shp) > 4:
-                return {"__array__": 1, "shape": shp, "dtype": leaf.dtype, "cells": None}
+                return {"__array__": 1, "shape": shp, "dtype": leaf.dtype, "cells": None, "__id__": id(leaf)}
             import itertools
             cells = {}
             for idx in itertools.product(*[range(n) for n in shp]):
                 c = leaf.get(list(idx))
                 cells[",".join(map(str, idx))] = conv(c)
-            return {"__array__": 1, "shape": shp, "dtype": leaf.dtype, "cells": cells}
+            return {"__array__": 1, "shape": shp, "dtype": leaf.dtype, "cells": cells, "__id__": id(leaf)}
         if isinstance(leaf, SymList):
             n = val(leaf.length) if z3.is_expr(leaf.length) else leaf.length
             if not isinstance(n, int) or n > 8 or n < 0:
@@ -475,7 +571,7 @@ def extract_model(m, leaves):
                 except Exception:      # noqa
                     pass
             if tree:
-                return {"__obj__": cls, "fields": fields}
+                return {"__obj__": cls, "fields": fields, "__id__": id(leaf)}
             return fields
         if isinstance(leaf, Range):
             return {"__range__": [conv(leaf.lo), conv(leaf.hi)]}
